@@ -702,6 +702,12 @@ func (fv *FuncVerifier) builtin(st *State, b *ssa.Builtin, cc *ssa.CallCommon, a
 	case "delete", "clear":
 		if _, isMap := args[0].Typ.Underlying().(*types.Map); isMap {
 			fv.guardAccess(st, cc.Args[0], true, pos)
+			if b.Name() == "delete" && len(args) == 2 {
+				if key, kok := fv.enc.mapKey(args[1]); kok {
+					fv.mapSetKey(st, cc.Args[0], key, false)
+					return Value{}
+				}
+			}
 			fv.markMapDirty(st, cc.Args[0])
 			return Value{}
 		}
